@@ -4,7 +4,7 @@ files and prints the interface lines."""
 import fcntl
 import hashlib
 import importlib
-import json
+import json, re
 import os
 import shutil
 import subprocess
@@ -224,6 +224,9 @@ def main(argv):
     printed_known = set()
     for v in viol:
         kk = known_keys.get((prop, v['key']))
+        if kk is None and '@' in v['key']:
+            # thorough tier: the same instance re-evaluated on a reduced-feature configuration carries an `@cfg` suffix
+            kk = known_keys.get((prop, re.sub(r'@[A-Za-z0-9_]+(?=\||$)', '', v['key'])))
         if kk is not None:
             if v['key'] not in printed_known:
                 print('KNOWN-FINDING: property=%s %s [%s]' % (prop, kk.get('what', ''), v['key']))
